@@ -18,6 +18,7 @@
 #    along with this program.  If not, see <http://www.gnu.org/licenses/>.
 #
 
+from fractions import Fraction
 from bitcoinlib.networks import *
 from bitcoinlib.config.config import NETWORK_DENOMINATORS
 
@@ -175,11 +176,12 @@ class Value:
                             raise ValueError("Currency symbol not recognised")
                         den_input = den
                         break
-            self.value = float(value) * den_input
+            # Calculate with exact fractions, float multiplication can be 1 satoshi off for large values
+            self.value = float(Fraction(value) * Fraction(str(den_input)))
             self.denominator = den_input if den_arg is None else den_arg
         else:
             self.denominator = den_arg or 1.0
-            self.value = float(value) * self.denominator
+            self.value = float(Fraction(value) * Fraction(str(self.denominator)))
 
     def __str__(self):
         return self.str()
